@@ -81,9 +81,7 @@ def run(tier, seed):
     binq = vlib.go_build("qbftdiff")
     inp = os.path.join(wd, "behaviours.ndjson")
     outp = os.path.join(wd, "result.json")
-    vlib.write_ndjson(inp, behs)
-    _, wall = vlib.run_driver(binq, ["-in", inp, "-out", outp], timeout=6000)
-    res = json.load(open(outp))
+    res, wall = vlib.run_driver_sharded(binq, behs, inp, outp, timeout=6000)
     log("[C06] stepped %d behaviours / %d steps through node, compacting node and reference instance in %.0fs: "
         "%d mismatches, %d divergences from the model" % (res["behaviours"], res["steps"], wall,
                                                         res["counters"].get("violations", 0), res["counters"].get("divergences", 0)))
